@@ -484,6 +484,31 @@ theorem isProofCycleCuckatoo_iff_verifier (es : List (Nat × Nat)) (hL : 0 < es.
   exact ⟨fun h => ⟨by simp, range_ascending _,
     fun x hx => by have := List.mem_range.mp hx; show x ≤ es.length; omega, h⟩, fun h => h.2.2.2⟩
 
+/-! ## Non-vacuity of the specification side
+
+The hypotheses of the `_complete` theorems are inhabited: concrete edge lists that *are* proof
+cycles (obtained through `_sound` from the accepted examples above), and one that is not. -/
+
+example : IsProofCycleCuckaroom ([0, 1, 2, 3].map (fun n => (n, (n + 1) % 4))) :=
+  (verifyCuckaroom_sound ⟨4, 3, 4, fun x => x % 8⟩ _ _ (by decide +kernel)).2.2.2
+
+example : IsProofCycleCuckaroo ([0, 2, 5, 7].map
+    (fun n => match n with | 0 => (5, 9) | 2 => (6, 9) | 5 => (6, 3) | 7 => (5, 3) | _ => (0, 0))) :=
+  (verifyCuckaroo_sound ⟨4, 7, 4, fun x => x % 8⟩ _ _ (by decide +kernel)).2.2.2
+
+example : IsProofCycleCuckatoo ([0, 2, 5, 7].map
+    (fun n => match n with | 0 => (4, 8) | 2 => (6, 9) | 5 => (7, 2) | 7 => (5, 3) | _ => (0, 0))) :=
+  (verifyCuckatoo_sound ⟨4, 7, 4, fun x => x % 8⟩ _ _ (by decide +kernel)).2.2.2
+
+example : IsProofCycleCuckarood ([0, 3, 4, 7].map (fun x => (x % 2,
+    (match x with | 0 => (5, 9) | 3 => (6, 9) | 4 => (6, 3) | 7 => (5, 3) | _ => (0, 0) : Nat × Nat)))) :=
+  (verifyCuckarood_sound ⟨4, 7, 4, fun x => x % 8⟩ _ _ (fun x => by simp) (by decide +kernel)).2.2.2
+
+/-- two disjoint 2-cycles are *not* one cycle through all four edges (decided by the verifier) -/
+example : ¬ IsProofCycleCuckarooz [(1, 2), (1, 2), (3, 4), (3, 4)] := by
+  rw [isProofCycleCuckarooz_iff_verifier _ (by decide)]
+  decide +kernel
+
 /-! ## What is not proved (kept visible)
 
 * The executable oracle `oracleCycle` (Model/PowSpec.lean: degree counting + connectivity closure,
